@@ -87,6 +87,12 @@ def catalog():
                   sub("f0"), sub("f1"), ["sleep", 0.01], ["run", "ex", 0]],
         "threads": [[["sleep", 1.0], ["run", "ex", 1]], [["sleep", 1.0], ["notify", "ex"]]],
         "settle": 3.0, "final": [["state", "f0"], ["state", "f1"]]}}
+    # cancel() of a polled future while the poll call that will resolve it is in progress (the call takes time): swept with TWO
+    # pre-emptions under the timers-may-pre-empt clock - cancel pauses, the yield lands, cancel resumes before the clean-up
+    out["P8/cancel-vs-yield-in-progress"] = {"double_always": {"window": 40, "picks": (0,)}, "clock": "preempt", "prog": {
+        "setup": [stack(man, 0.5, {"f0.fn": {"after": 2}}, calls=[{}, {"vsleep": 0.25}, {}], cancel=[["ret", True]]), sub("f0"), ["sleep", 0.01], ["run", "ex", 0]],
+        "threads": [[["sleep", 0.74], ["cancel", "f0"]]],
+        "settle": 1.5, "final": [["state", "f0"]]}}
     return out
 
 
@@ -300,6 +306,9 @@ def evaluate(case):
                 bad("cancel-fn-called-outside-polling-stage", fut=F["name"])
             elif not inside:
                 bad("cancel-fn-called-outside-cancel", fut=F["name"])
+            elif ev[4].get("subject_state") in ("FINISHED", "CANCELLED", "CANCELLED_AND_NOTIFIED"):
+                # consulted about a future that was already resolved at that instant (no longer in the polling stage)
+                bad("cancel-fn-consulted-for-resolved-future", fut=F["name"], state=ev[4]["subject_state"])
     cf_rets = [(e[0], e[3], e[4]) for e in s.events if e[3] in ("ret", "raise") and e[4]["fn"] == CFN]
     for F in futs.values():
         for o in F["cancels"]:
@@ -388,7 +397,15 @@ def run_shard(spec, ctx):
     if spec["mode"] == "sweep":
         cat = catalog()
         for name in spec["entries"]:
-            progs.sweep(ctx, cat[name]["prog"], name, evaluate, account, double=spec.get("double"), extra={"entry": name, "max_vtime": 300})
+            ent = cat[name]
+            extra = {"entry": name, "max_vtime": 300}
+            if ent.get("clock"):
+                extra["clock"] = ent["clock"]
+            da = ent.get("double_always")
+            if da:
+                progs.sweep(ctx, ent["prog"], name, evaluate, account, double=True, picks=da["picks"], window=da["window"], extra=extra)
+            else:
+                progs.sweep(ctx, ent["prog"], name, evaluate, account, double=spec.get("double"), extra=extra)
     elif spec["mode"] == "machine":
         import machines
         machines.run_machine(machines.make_poll_machine, ctx, spec["seed"], spec["n"], spec["steps"])
